@@ -502,3 +502,26 @@ def tryreturn(a, b):
 
 def oneline(a, b):
     return a * 2 + b if a else b
+
+
+class _Shelf:
+    """Truth value and length disagree: an open shelf is truthy even when empty, a closed one falsy even when full."""
+
+    def __init__(self, items, is_open):
+        self.items = items
+        self.is_open = is_open
+
+    def __bool__(self):
+        return self.is_open
+
+    def __len__(self):
+        return len(self.items)
+
+
+def boollen(a, b):
+    r = 0
+    if _Shelf([1] * max(a, 0), b > 0):
+        r += 1
+    if not _Shelf([], a > b):
+        r += 2
+    return r
